@@ -900,3 +900,41 @@ package starlark
 //@ func CompiledProgram
 //@   prop C17
 //@   assert /compile.DecodeProgram\(data\)/ decodes_the_whole_stream: bytesid(data) == streamid(refof(in))
+
+// ---- set and dict operators (C12): the receiver of the derived operation is the LEFT operand
+// (whose order the result keeps), whatever the sizes of the operands
+//@ func Binary
+//@   prop C12
+//@   assert /return x.Difference\(iter\)/ left_operand_is_the_receiver: x == as(param(x), *Set)
+//@   assert /return x.Union\(iter\)/ left_operand_is_the_receiver: x == as(param(x), *Set)
+//@   assert /return x.Union\(y\), nil/ left_operand_is_the_receiver: x == as(param(x), *Dict) && y == as(param(y), *Dict)
+//@   assert /return x.Intersection\(iter\)/ left_operand_is_the_receiver: x == as(param(x), *Set)
+//@   assert /return x.SymmetricDifference\(iter\)/ left_operand_is_the_receiver: x == as(param(x), *Set)
+
+// ---- push iterators (C06): the lock taken by List.Elements is released on every way out of the
+// iteration -- exhaustion, break, and a panic raised by the loop body (yield) -- because the
+// decrement is deferred
+//@ func List.Elements$1$1
+//@   prop C06
+//@   modifies List.itercount
+//@   ensures l.itercount == wrapu32(old(l.itercount) - 1)
+//@ func List.Elements$1
+//@   prop C06
+//@   callback yield preserves captured(l)
+//@   callback yield preserves l.itercount
+//@   invariant 1 captured(l) == l && l.itercount == ite(old(l.frozen), old(l.itercount), wrapu32(old(l.itercount) + 1))
+//@   onpanic lock_released_if_yield_panics: l.itercount == old(l.itercount)
+//@   ensures lock_released: l.itercount == old(l.itercount)
+
+// ---- determinism and thread-compatibility (C03, C05): no function of the package writes a
+// package-level variable at run time (what one execution left there another would read).
+// The one exception is the profiler, which is process-wide by design (StartProfile/StopProfile
+// are host operations, not reachable from Starlark code).
+//@ globals_readonly [C03,C05] except profiler
+
+// ---- recycled call frames (C03, C16): a frame popped by Call goes back to the thread's free list
+// completely blank, so nothing an earlier call left in it (pc, locals, callable) can show up in
+// the positions or backtraces of a later execution on the same thread
+//@ func Call$1
+//@   prop C03 C16
+//@   ensures released_frame_is_blank: isnil(fr.callable) && fr.pc == 0 && isnil(fr.locals) && len(fr.locals) == 0 && fr.spanStart == 0
